@@ -168,8 +168,35 @@ func c03TeeBranch(c *Ctx, r *Report, rule string) {
 		for _, b := range f.Blocks {
 			for _, in := range b.Instrs {
 				if g, ok := in.(*ssa.Go); ok {
-					if cl := closureOf(g.Call.Value); cl != nil {
-						visit(cl, true)
+					if mc, isClosure := g.Call.Value.(*ssa.MakeClosure); isClosure {
+						visit(mc.Fn.(*ssa.Function), true)
+					} else if callee := g.Call.StaticCallee(); callee != nil && callee.Pkg == fn.Pkg && len(callee.Blocks) > 0 {
+						// the branch runs as a named function of the package: the connection it hands on is one of its parameters
+						for _, ci := range callsIn(callee) {
+							cm := ci.Common()
+							if !cm.IsInvoke() || cm.Method.Name() != "Handle" || len(cm.Args) == 0 {
+								continue
+							}
+							p, isParam := cm.Args[0].(*ssa.Parameter)
+							idx := -1
+							if isParam {
+								idx = paramIndex(callee, p)
+							}
+							if idx < 0 || idx >= len(g.Call.Args) {
+								r.bad(rule, fnName, "connection of "+c.ipos(ci), c.ipos(ci), "undecided: the connection handed on by the branch function is not one of its parameters")
+								continue
+							}
+							for _, t := range wrapped(g.Call.Args[idx]) {
+								if t == nil {
+									r.bad(rule, fnName, "connection of "+c.ipos(ci), c.ipos(ci), "undecided: the wrapper's type is not visible at cx.Wrap")
+									continue
+								}
+								has := offers(t)
+								nBranch++
+								r.check(len(has) == 0, rule, fnName, "branch gets "+typeStr(t), c.ipos(ci), "offers neither CloseWrite nor NetConn()",
+									"the wrapper handed to the concurrently running branch offers "+strings.Join(has, " and ")+": a relay in the branch that finishes first half-closes the client's socket while the main chain's relay is still writing to it (the client sees end-of-stream early, the rest of the main upstream's bytes are lost)")
+							}
+						}
 					}
 					continue
 				}
